@@ -12,7 +12,7 @@ FLAVOURS = {
                     "-fno-sanitize-recover=undefined", "-fno-omit-frame-pointer"],
 }
 COMMON = ["-std=c++17", "-w", "-DPSYCHEC_VERIF", "-I" + REPO, "-I" + os.path.join(REPO, "C"),
-          "-I" + os.path.join(REPO, "common")]
+          "-I" + os.path.join(REPO, "common"), "-I" + os.path.join(BUILD, "gen")]
 
 
 def lib_sources():
@@ -66,8 +66,20 @@ def write_ninja(flavour):
     return d
 
 
+def generate():
+    """Regenerate everything that is derived from /repo's sources (Lean data + harness includes)."""
+    import sys
+    sys.path.insert(0, ROOT)
+    from translators import syntaxkind
+    from .common import LEAN
+    with Lock("gen"):
+        syntaxkind.main(REPO, os.path.join(LEAN, "PsycheModel", "Generated", "SyntaxKind.lean"),
+                        os.path.join(BUILD, "gen", "kindnames.inc"))
+
+
 def build(flavour="ndebug", targets=("psyh",)):
     """Returns (ok, log, dir)."""
+    generate()
     with Lock("cxx-" + flavour):
         d = write_ninja(flavour)
         rc, out, err = sh(["ninja", "-C", d, "-j", str(NCPU)] + list(targets))
